@@ -86,6 +86,9 @@ func init() {
 			kind := kind
 			c.Add(&Job{Label: fmt.Sprintf("Independence/%s,lints=%d", kindNames[kind], k), Pkg: rootPkg, Func: "VerifC07Independence", MustCover: []string{"selected lint", "unselected lint"}, PanicsAreFindings: true,
 				Tune: func(cf *Config) { cf.Bounds["param:fw.kind"], cf.Bounds["param:fw.k"] = kind, k; scopeStubs(cf) }})
+			if kind == 0 {
+				addReadOnlyHelperJobs(c)
+			}
 			c.Add(&Job{Label: "Configured/" + kindNames[kind], Pkg: rootPkg, Func: "VerifC07Configured", MustCover: []string{"selected lint", "unselected lint"}, PanicsAreFindings: true,
 				Tune: func(cf *Config) { cf.Bounds["param:fw.kind"] = kind; scopeStubs(cf) }})
 		}
